@@ -5,27 +5,70 @@ import (
 	"bytes"
 	"encoding/xml"
 	"fmt"
+	"path"
 	"strings"
+
+	"wzverif/internal/gen"
 )
 
 // A history may start from a document that another producer wrote (Start != nil) instead of document.New():
-// a minimal, valid WordprocessingML package written here with string templates (no pkg/document code), whose
-// header/footer parts are named the way Word names them - header1.xml, header2.xml ... in creation order,
-// in no fixed relation to the kind - or the way the library itself names them.
+// a minimal, valid WordprocessingML package written here with string templates (no pkg/document code).
+// What such producers are free to do, and what this writer therefore varies:
+//   - part names: header1.xml, header2.xml ... in creation order (in no relation to the kind), the library's own names,
+//     the library's names attached to OTHER kinds, free names, parts in a sub-folder of word/ (word/headers/h1.xml);
+//   - relationship targets: relative to the folder of the main part (header1.xml), with a leading ./, as an absolute
+//     part name (/word/header1.xml), or relative through the parent folder (../word/header1.xml) - all the same part by
+//     the OPC resolution rules;
+//   - relationship ids: contiguous, with gaps, or not of the rIdN form at all; the styles relationship first or last and
+//     not necessarily rId1;
+//   - the kinds present: any subset of the six slots; w:headerReference / w:footerReference in any order in w:sectPr;
+//     header/footer parts (with a relationship) that no w:sectPr references (left-overs);
+//   - header/footer parts that show a picture through a relationship part of their own (word/_rels/header1.xml.rels).
 
-// StartSlot is one header/footer definition of the foreign package.
+// StartSlot is one header/footer part of the foreign package.
 type StartSlot struct {
 	Footer bool   `json:"footer,omitempty"`
 	Kind   string `json:"kind"`
-	Part   string `json:"part"` // file name inside word/, e.g. header2.xml
+	Part   string `json:"part"` // part name below word/, e.g. header2.xml or headers/h1.xml
 	Text   string `json:"text"`
+	Tgt    string `json:"tgt,omitempty"`   // spelling of the relationship target: "" header2.xml | "dot" ./header2.xml | "abs" /word/header2.xml | "up" ../word/header2.xml
+	ID     string `json:"id,omitempty"`    // relationship id ("" = rId<position+2>)
+	Pic    bool   `json:"pic,omitempty"`   // the part shows a picture through its own relationship part
+	Unref  bool   `json:"unref,omitempty"` // part and relationship exist, but w:sectPr does not reference the part: the kind is NOT defined
 }
 
 type Start struct {
-	Slots []StartSlot `json:"slots"`
+	Slots      []StartSlot `json:"slots"`
+	RefOrder   []int       `json:"reforder,omitempty"`   // order of the references in w:sectPr (indices into Slots); nil = slot order
+	StylesID   string      `json:"stylesid,omitempty"`   // id of the styles relationship ("" = rId1)
+	StylesLast bool        `json:"styleslast,omitempty"` // the styles relationship is the last one of the relationship part
+	File       bool        `json:"file,omitempty"`       // opened with document.Open from a file instead of OpenFromMemory
 }
 
 func (s StartSlot) key() key { return key{s.Footer, s.Kind} }
+
+// name is the zip entry name of the slot's part.
+func (s StartSlot) name() string { return "word/" + s.Part }
+
+// target is the relationship target as the producer spells it (source part: word/document.xml).
+func (s StartSlot) target() string {
+	switch s.Tgt {
+	case "dot":
+		return "./" + s.Part
+	case "abs":
+		return "/word/" + s.Part
+	case "up":
+		return "../word/" + s.Part
+	}
+	return s.Part
+}
+
+func (st *Start) relID(i int) string {
+	if st.Slots[i].ID != "" {
+		return st.Slots[i].ID
+	}
+	return fmt.Sprintf("rId%d", i+2)
+}
 
 // libPart is the part name the library documents for a slot (properties.jsonl anchors: header1/headerfirst/headereven).
 func libPart(k key) string {
@@ -42,16 +85,61 @@ func libPart(k key) string {
 	return p + "1.xml"
 }
 
+// slot returns the definition the opened document holds for k (unreferenced parts define nothing).
 func (st *Start) slot(k key) (StartSlot, bool) {
 	if st == nil {
 		return StartSlot{}, false
 	}
 	for _, s := range st.Slots {
-		if s.key() == k {
+		if s.key() == k && !s.Unref {
 			return s, true
 		}
 	}
 	return StartSlot{}, false
+}
+
+// valid says whether the start layout describes a well-formed package (replay files are data: a hand-edited one with
+// two parts of one name, two definitions of one slot or a repeated relationship id is not a document of the domain).
+func (st *Start) valid() error {
+	names, ids, keys := map[string]bool{}, map[string]bool{}, map[key]bool{}
+	sid := st.StylesID
+	if sid == "" {
+		sid = "rId1"
+	}
+	ids[sid] = true
+	for i, s := range st.Slots {
+		if s.Part == "" || strings.HasPrefix(s.Part, "/") || strings.Contains(s.Part, "..") || names[strings.ToLower(s.Part)] {
+			return fmt.Errorf("slot %d: part name %q empty, not below word/ or used twice", i, s.Part)
+		}
+		names[strings.ToLower(s.Part)] = true
+		if id := st.relID(i); ids[id] {
+			return fmt.Errorf("slot %d: relationship id %q used twice", i, id)
+		} else {
+			ids[id] = true
+		}
+		if s.Kind != "default" && s.Kind != "first" && s.Kind != "even" {
+			return fmt.Errorf("slot %d: kind %q", i, s.Kind)
+		}
+		if !s.Unref {
+			if keys[s.key()] {
+				return fmt.Errorf("slot %d: %s defined twice", i, s.key())
+			}
+			keys[s.key()] = true
+		}
+	}
+	if st.RefOrder != nil {
+		seen := map[int]bool{}
+		for _, i := range st.RefOrder {
+			if i < 0 || i >= len(st.Slots) || seen[i] {
+				return fmt.Errorf("reforder %v is not a permutation of the slots", st.RefOrder)
+			}
+			seen[i] = true
+		}
+		if len(seen) != len(st.Slots) {
+			return fmt.Errorf("reforder %v is not a permutation of the slots", st.RefOrder)
+		}
+	}
+	return nil
 }
 
 func esc(s string) string {
@@ -62,31 +150,108 @@ func esc(s string) string {
 
 const nsW = "http://schemas.openxmlformats.org/wordprocessingml/2006/main"
 const nsR = "http://schemas.openxmlformats.org/officeDocument/2006/relationships"
+const (
+	nsWP  = "http://schemas.openxmlformats.org/drawingml/2006/wordprocessingDrawing"
+	nsA   = "http://schemas.openxmlformats.org/drawingml/2006/main"
+	nsPic = "http://schemas.openxmlformats.org/drawingml/2006/picture"
+)
 
-// foreignPackage writes the package. Relationship ids are rId1 (styles), rId2.. (headers/footers in slot order).
+const xmlDecl = `<?xml version="1.0" encoding="UTF-8" standalone="yes"?>` + "\n"
+
+// the one picture header/footer parts of the foreign package show
+var foreignPicture = gen.Img{Fmt: "png", W: 3, H: 2, Pat: 5, Name: "image1.png"}
+
+const foreignPictureName = "word/media/image1.png"
+
+func pictureRun(rid string, n int) string {
+	return fmt.Sprintf(`<w:r><w:drawing><wp:inline xmlns:wp="%s" distT="0" distB="0" distL="0" distR="0"><wp:extent cx="285750" cy="190500"/><wp:docPr id="%d" name="Picture %d"/>`+
+		`<a:graphic xmlns:a="%s"><a:graphicData uri="%s"><pic:pic xmlns:pic="%s"><pic:nvPicPr><pic:cNvPr id="%d" name="image1.png"/><pic:cNvPicPr/></pic:nvPicPr>`+
+		`<pic:blipFill><a:blip r:embed="%s"/><a:stretch><a:fillRect/></a:stretch></pic:blipFill><pic:spPr><a:xfrm><a:off x="0" y="0"/><a:ext cx="285750" cy="190500"/></a:xfrm>`+
+		`<a:prstGeom prst="rect"><a:avLst/></a:prstGeom></pic:spPr></pic:pic></a:graphicData></a:graphic></wp:inline></w:drawing></w:r>`,
+		nsWP, 100+n, n, nsA, nsPic, nsPic, 100+n, rid)
+}
+
+// relTarget spells the target of a relationship from part `from` to part `to` (both zip entry names) relative to the
+// folder of `from`.
+func relTarget(from, to string) string {
+	fd := strings.Split(path.Dir(from), "/")
+	td := strings.Split(to, "/")
+	i := 0
+	for i < len(fd) && i < len(td)-1 && fd[i] == td[i] {
+		i++
+	}
+	return strings.Repeat("../", len(fd)-i) + strings.Join(td[i:], "/")
+}
+
+// foreignPackage writes the package.
 func foreignPackage(st *Start) []byte {
-	var ct, rels, refs strings.Builder
-	parts := map[string]string{}
-	ct.WriteString(`<?xml version="1.0" encoding="UTF-8" standalone="yes"?>` + "\n" + `<Types xmlns="http://schemas.openxmlformats.org/package/2006/content-types">` +
-		`<Default Extension="rels" ContentType="application/vnd.openxmlformats-package.relationships+xml"/><Default Extension="xml" ContentType="application/xml"/>` +
-		`<Override PartName="/word/document.xml" ContentType="application/vnd.openxmlformats-officedocument.wordprocessingml.document.main+xml"/>` +
+	var ct, refs strings.Builder
+	parts := map[string][]byte{}
+	ct.WriteString(xmlDecl + `<Types xmlns="http://schemas.openxmlformats.org/package/2006/content-types">` +
+		`<Default Extension="rels" ContentType="application/vnd.openxmlformats-package.relationships+xml"/><Default Extension="xml" ContentType="application/xml"/>`)
+	anyPic := false
+	for _, s := range st.Slots {
+		anyPic = anyPic || s.Pic
+	}
+	if anyPic {
+		ct.WriteString(`<Default Extension="png" ContentType="image/png"/>`)
+	}
+	ct.WriteString(`<Override PartName="/word/document.xml" ContentType="application/vnd.openxmlformats-officedocument.wordprocessingml.document.main+xml"/>` +
 		`<Override PartName="/word/styles.xml" ContentType="application/vnd.openxmlformats-officedocument.wordprocessingml.styles+xml"/>`)
-	rels.WriteString(`<?xml version="1.0" encoding="UTF-8" standalone="yes"?>` + "\n" + `<Relationships xmlns="http://schemas.openxmlformats.org/package/2006/relationships">` +
-		`<Relationship Id="rId1" Type="` + nsR + `/styles" Target="styles.xml"/>`)
+	sid := st.StylesID
+	if sid == "" {
+		sid = "rId1"
+	}
+	stylesRel := `<Relationship Id="` + esc(sid) + `" Type="` + nsR + `/styles" Target="styles.xml"/>`
+	var rels strings.Builder
+	rels.WriteString(xmlDecl + `<Relationships xmlns="http://schemas.openxmlformats.org/package/2006/relationships">`)
+	if !st.StylesLast {
+		rels.WriteString(stylesRel)
+	}
 	first := false
+	refOf := make([]string, len(st.Slots))
+	var order []string
 	for i, s := range st.Slots {
-		id := fmt.Sprintf("rId%d", i+2)
+		id := st.relID(i)
 		what, root := "header", "hdr"
 		if s.Footer {
 			what, root = "footer", "ftr"
 		}
-		fmt.Fprintf(&ct, `<Override PartName="/word/%s" ContentType="application/vnd.openxmlformats-officedocument.wordprocessingml.%s+xml"/>`, s.Part, what)
-		fmt.Fprintf(&rels, `<Relationship Id="%s" Type="%s/%s" Target="%s"/>`, id, nsR, what, s.Part)
-		fmt.Fprintf(&refs, `<w:%sReference w:type="%s" r:id="%s"/>`, what, s.Kind, id)
-		parts["word/"+s.Part] = fmt.Sprintf(`<?xml version="1.0" encoding="UTF-8" standalone="yes"?>`+"\n"+`<w:%s xmlns:w="%s" xmlns:r="%s"><w:p><w:pPr><w:pStyle w:val="%s"/></w:pPr><w:r><w:t>%s</w:t></w:r></w:p></w:%s>`,
-			root, nsW, nsR, map[bool]string{false: "Header", true: "Footer"}[s.Footer], esc(s.Text), root)
-		if s.Kind == "first" {
-			first = true
+		fmt.Fprintf(&ct, `<Override PartName="/%s" ContentType="application/vnd.openxmlformats-officedocument.wordprocessingml.%s+xml"/>`, s.name(), what)
+		fmt.Fprintf(&rels, `<Relationship Id="%s" Type="%s/%s" Target="%s"/>`, esc(id), nsR, what, esc(s.target()))
+		if !s.Unref {
+			refOf[i] = fmt.Sprintf(`<w:%sReference w:type="%s" r:id="%s"/>`, what, s.Kind, esc(id))
+			if s.Kind == "first" {
+				first = true
+			}
+		}
+		pic := ""
+		if s.Pic {
+			pic = pictureRun("rId1", i+1)
+			parts[relsNameOf(s.name())] = []byte(xmlDecl + `<Relationships xmlns="http://schemas.openxmlformats.org/package/2006/relationships">` +
+				`<Relationship Id="rId1" Type="` + nsR + `/image" Target="` + relTarget(s.name(), foreignPictureName) + `"/></Relationships>`)
+		}
+		parts[s.name()] = []byte(fmt.Sprintf(xmlDecl+`<w:%s xmlns:w="%s" xmlns:r="%s"><w:p><w:pPr><w:pStyle w:val="%s"/></w:pPr>%s<w:r><w:t>%s</w:t></w:r></w:p></w:%s>`,
+			root, nsW, nsR, map[bool]string{false: "Header", true: "Footer"}[s.Footer], pic, esc(s.Text), root))
+		order = append(order, s.name())
+		if s.Pic {
+			order = append(order, relsNameOf(s.name()))
+		}
+	}
+	if anyPic {
+		parts[foreignPictureName] = foreignPicture.Bytes()
+		order = append(order, foreignPictureName)
+	}
+	if st.StylesLast {
+		rels.WriteString(stylesRel)
+	}
+	if st.RefOrder != nil {
+		for _, i := range st.RefOrder {
+			refs.WriteString(refOf[i])
+		}
+	} else {
+		for _, r := range refOf {
+			refs.WriteString(r)
 		}
 	}
 	ct.WriteString(`</Types>`)
@@ -95,25 +260,26 @@ func foreignPackage(st *Start) []byte {
 	if first {
 		title = `<w:titlePg/>`
 	}
-	parts["[Content_Types].xml"] = ct.String()
-	parts["_rels/.rels"] = `<?xml version="1.0" encoding="UTF-8" standalone="yes"?>` + "\n" + `<Relationships xmlns="http://schemas.openxmlformats.org/package/2006/relationships">` +
-		`<Relationship Id="rId1" Type="` + nsR + `/officeDocument" Target="word/document.xml"/></Relationships>`
-	parts["word/_rels/document.xml.rels"] = rels.String()
-	parts["word/styles.xml"] = `<?xml version="1.0" encoding="UTF-8" standalone="yes"?>` + "\n" + `<w:styles xmlns:w="` + nsW + `"><w:style w:type="paragraph" w:default="1" w:styleId="Normal"><w:name w:val="Normal"/></w:style>` +
-		`<w:style w:type="paragraph" w:styleId="Header"><w:name w:val="header"/><w:basedOn w:val="Normal"/></w:style><w:style w:type="paragraph" w:styleId="Footer"><w:name w:val="footer"/><w:basedOn w:val="Normal"/></w:style></w:styles>`
-	parts["word/document.xml"] = `<?xml version="1.0" encoding="UTF-8" standalone="yes"?>` + "\n" + `<w:document xmlns:w="` + nsW + `" xmlns:r="` + nsR + `"><w:body>` +
+	parts["[Content_Types].xml"] = []byte(ct.String())
+	parts["_rels/.rels"] = []byte(xmlDecl + `<Relationships xmlns="http://schemas.openxmlformats.org/package/2006/relationships">` +
+		`<Relationship Id="rId1" Type="` + nsR + `/officeDocument" Target="word/document.xml"/></Relationships>`)
+	parts["word/_rels/document.xml.rels"] = []byte(rels.String())
+	parts["word/styles.xml"] = []byte(xmlDecl + `<w:styles xmlns:w="` + nsW + `"><w:style w:type="paragraph" w:default="1" w:styleId="Normal"><w:name w:val="Normal"/></w:style>` +
+		`<w:style w:type="paragraph" w:styleId="Header"><w:name w:val="header"/><w:basedOn w:val="Normal"/></w:style><w:style w:type="paragraph" w:styleId="Footer"><w:name w:val="footer"/><w:basedOn w:val="Normal"/></w:style></w:styles>`)
+	parts["word/document.xml"] = []byte(xmlDecl + `<w:document xmlns:w="` + nsW + `" xmlns:r="` + nsR + `"><w:body>` +
 		`<w:p><w:r><w:t>written by another producer</w:t></w:r></w:p>` +
-		`<w:sectPr>` + refs.String() + `<w:pgSz w:w="11906" w:h="16838"/><w:pgMar w:top="1440" w:right="1800" w:bottom="1440" w:left="1800" w:header="851" w:footer="992" w:gutter="0"/>` + title + `</w:sectPr></w:body></w:document>`
-	order := []string{"[Content_Types].xml", "_rels/.rels", "word/document.xml", "word/_rels/document.xml.rels", "word/styles.xml"}
-	for _, s := range st.Slots {
-		order = append(order, "word/"+s.Part)
-	}
+		`<w:sectPr>` + refs.String() + `<w:pgSz w:w="11906" w:h="16838"/><w:pgMar w:top="1440" w:right="1800" w:bottom="1440" w:left="1800" w:header="851" w:footer="992" w:gutter="0"/>` + title + `</w:sectPr></w:body></w:document>`)
+	order = append([]string{"[Content_Types].xml", "_rels/.rels", "word/document.xml", "word/_rels/document.xml.rels", "word/styles.xml"}, order...)
 	var buf bytes.Buffer
 	zw := zip.NewWriter(&buf)
 	for _, n := range order {
 		w, _ := zw.Create(n)
-		w.Write([]byte(parts[n]))
+		w.Write(parts[n])
 	}
 	zw.Close()
 	return buf.Bytes()
+}
+
+func relsNameOf(part string) string {
+	return path.Dir(part) + "/_rels/" + path.Base(part) + ".rels"
 }
